@@ -1,6 +1,6 @@
 (* Props/C20.v — shellcheck/pyflakes integration loses nothing and bounds
    concurrency.  Only statements; every proof is [exact <lemma>]. *)
-From AL Require Import Base.Str Proc.Sanitize Proc.ShellSel Proc.ExecOutcome Proc.ProcModel Proc.ProcProofs Proc.ProcExamples.
+From AL Require Import Base.Str Proc.Sanitize Proc.ShellSel Proc.ExecOutcome Proc.ProcModel Proc.ProcProofs Proc.ProcOnce Proc.ProcExamples.
 From Coq Require Import ZArith Permutation.
 
 (* ---- placeholder replacement (sanitizeExpressionsInScript) ---- *)
@@ -118,6 +118,15 @@ Theorem C20_no_lost_output : forall cap wfs tr st fatal,
      d_pos d = i_pos (t_inv x) /\ d_file d = t_file x /\ d_rule d = i_rule (t_inv x)).
 Proof. exact no_lost_output. Qed.
 Print Assumptions C20_no_lost_output.
+
+(* on return, for every file, the invocations that were spawned are (as a
+   multiset) exactly those the specification demands for its run steps:
+   every applicable script was passed exactly once, nothing else was *)
+Theorem C20_exactly_once_on_return : forall cap wfs tr st fatal,
+  exec cap wfs tr = Some st -> s_main st = MReturned fatal ->
+  forall f w, nth_error wfs f = Some w -> Permutation (spawned_for f st) (invocations_spec w).
+Proof. exact exactly_once_on_return. Qed.
+Print Assumptions C20_exactly_once_on_return.
 
 (* LintFiles as found (return before proc.wait() on the fatal-error path)
    violates all_collected; kept as documentation of the repaired defect *)
